@@ -26,7 +26,10 @@ Theorem C16_in_analysis_holds_lock : forall progs, Forall well_locked progs ->
 Proof. exact in_analysis_holds_lock. Qed.
 Print Assumptions C16_in_analysis_holds_lock.
 
-(* `fan init` run beside a daemon obeys the same discipline *)
+(* the program of `fan init` (RunInitializationSequence on a fresh controller) is well locked too.
+   Note: InitializationSequenceMutex is a process-local sync.Mutex, so the exclusion theorems speak about
+   the controllers of ONE fan2go process; a `fan init` started as a separate process beside a running
+   daemon shares no lock with it (not covered by the property, which is about the daemon's start-up). *)
 Theorem C16_init_cmd_well_locked : forall f c e, f_par f = false -> well_locked (prog_of (fst (init_cmd f c e))).
 Proof. exact init_well_locked. Qed.
 Print Assumptions C16_init_cmd_well_locked.
